@@ -184,11 +184,11 @@ def c09(ctx):
     ctx.rule = ("TLC enumerates update / recover / deactivate operations with every (from, until) in (0..5)^2 at "
                 "every anchoring time 0..4 (positions 1..4 and the zero-time metadata variant), i.e. all orderings "
                 "and equalities incl. t = from, t = until, t = from + delta, for the maximum operation time delta "
-                "in {1, 2, 3}; the replay compares the resulting state (document changed / commitments advanced / "
+                "in {0, 1, 2, 3}; the replay compares the resulting state (document changed / commitments advanced / "
                 "refused) and the (from, until) pair the parser hands to a recording time validator; then the same "
                 "edges are replayed with every other numeric protocol limit changed in turn.")
     ctx.assumptions = APPLIER_ASSUME
-    tds = [1, 2, 3]
+    tds = [0, 1, 2, 3]  # 0: a missing until then means until = from
     first = None
     saved = {}
     for td in tds:
